@@ -435,8 +435,42 @@ func checkC05(cx *Ctx, r *Report) {
 		{"CreateAuthRequest:relayState", matchStorage("CreateAuthRequest"), 4, []string{fv("RelayState")}, []string{fv("RelayState")}},
 		{"verifyPost:base64-input", matchCallee("(*encoding/base64.Encoding).DecodeString"), 1, []string{fv("SAMLRequest"), "param:*", "ext:*"}, nil},
 	}
+	// r.Form.Get(name) after ParseForm reads the same merged parameters as r.FormValue(name): either spelling is fine,
+	// as long as every consumer of a parameter reads it the same way (what is verified is what is decoded and stored)
+	spelling := map[string]map[string]bool{}
+	normalise := func(ls LabelSet) LabelSet {
+		out := LabelSet{}
+		for l, f := range ls {
+			const pre = `ext:(url.Values).Get("`
+			if strings.HasPrefix(l, pre) && strings.HasSuffix(l, `")#0`) {
+				name := strings.TrimSuffix(strings.TrimPrefix(l, pre), `")#0`)
+				if spelling[name] == nil {
+					spelling[name] = map[string]bool{}
+				}
+				spelling[name]["Form.Get"] = true
+				out[fv(name)] |= f
+				continue
+			}
+			const pre2 = `ext:(*http.Request).FormValue("`
+			if strings.HasPrefix(l, pre2) && strings.HasSuffix(l, `")#0`) {
+				name := strings.TrimSuffix(strings.TrimPrefix(l, pre2), `")#0`)
+				if spelling[name] == nil {
+					spelling[name] = map[string]bool{}
+				}
+				spelling[name]["FormValue"] = true
+			}
+			out[l] |= f
+		}
+		return out
+	}
+	defer func() {
+		for name, sp := range spelling {
+			r.Check(len(sp) <= 1, "R-VFG", "sso:form-parameter-read-one-way:"+name, "", "every consumer reads the parameter the same way", "the request parameter "+name+" is read with FormValue at one place and with Form.Get at another: for multipart requests the two differ, what is verified is then not what is decoded or stored")
+		}
+	}()
 	for _, s := range sinks {
 		ls, sites := vf.CallArgSources(s.match, s.idx)
+		ls = normalise(ls)
 		if len(sites) == 0 {
 			r.Fail("R-VFG", "sso:"+s.key, "", "sink call site not found in the SSO handler's scope")
 			continue
@@ -451,6 +485,7 @@ func checkC05(cx *Ctx, r *Report) {
 					n++
 				}
 			}
+			ls = normalise(ls)
 			if n == 0 {
 				r.Fail("R-VFG", "sso:"+s.key, "", "verifyPostSignature no longer base64-decodes the message it verifies")
 				continue
